@@ -42,7 +42,7 @@ type ValGenesis struct {
 }
 
 type TVOp struct {
-	Kind          string // add | rm | params | begin | end | register | engine
+	Kind          string // add | rm | params | begin | end | register | engine | dryblock
 	Op, Key       uint64 // add / rm; register: 0 = undecodable
 	MaxV, Entries uint64
 	H             int64
@@ -72,6 +72,8 @@ func (o TVOp) Coq() string {
 			coqU(o.Pid), coqU(o.PH), coqOptU(o.Op), coqOptU(o.Key), coqList(ex))
 	case "engine":
 		return "TEngine " + coqKPs(o.Batch)
+	case "dryblock":
+		return fmt.Sprintf("TDryBlock %s", coqI(o.H))
 	}
 	panic("unknown tvop " + o.Kind)
 }
@@ -93,6 +95,8 @@ func (o TVOp) String() string {
 		return fmt.Sprintf("register(pid=%d,h=%d,op%d,key%d,%d execs)", o.Pid, o.PH, o.Op, o.Key, len(o.Execs))
 	case "engine":
 		return fmt.Sprintf("engine%v", o.Batch)
+	case "dryblock":
+		return fmt.Sprintf("begin+end(%d) on a DISCARDED cache branch", o.H)
 	}
 	return o.Kind
 }
@@ -449,6 +453,25 @@ func (r *ValRun) Do(o TVOp) ValSnap {
 		if res.OK {
 			r.feed(&s, batch)
 		}
+	case "dryblock":
+		// the whole (empty) block on a branch of the store that is thrown away afterwards: what
+		// baseapp does with a proposal it ends up rejecting, or a simulation
+		res = func() (res ExecResult) {
+			branch, _ := r.Ctx.WithBlockHeight(o.H).CacheContext()
+			branch = branch.WithEventManager(sdk.NewEventManager())
+			defer func() {
+				if x := recover(); x != nil {
+					res = ExecResult{OK: false, Err: fmt.Sprintf("panic: %v", x)}
+				}
+			}()
+			if err := opchild.BeginBlocker(branch, e.K); err != nil {
+				return ExecResult{OK: false, Err: err.Error()}
+			}
+			if _, err := opchild.EndBlocker(branch, e.K); err != nil {
+				return ExecResult{OK: false, Err: err.Error()}
+			}
+			return ExecResult{OK: true}
+		}()
 	case "register":
 		opStr, keyStr := "notavaloper", "{notjson"
 		if o.Op != 0 {
